@@ -1389,56 +1389,271 @@ package ast
 // never fires again, including after store and load" can hold is that a removed entry is not catalogued as a live rule.
 //@ ghost var $catAddN int
 //@ ghost var $catAddOK array[Ref]bool    // record object -> it was filed by the AddMeta call that received it
-//@ extern func (cat *Catalog) AddMeta(astID, meta) (added)
+// AddMeta is CHECKED against its body: a record is filed exactly when nothing is filed under its id yet, under exactly that id;
+// whatever was filed before stays filed and unchanged (records are never overwritten), no other catalogue is touched.
+//@ macro func catHas(cat *Catalog, k string) bool { return cat.Data != nil && has(cat.Data, k) }
+//@ func (cat *Catalog) AddMeta(astID, meta) (added)
+//@   serves C12
+//@   opt alloc=1
+//@   requires cat != nil
 //@   nopanic
+//@   modifies Catalog.Data, map[string]Meta, alloc, $allocated
 //@   ghost_exit $catAddN = $catAddN + 1
 //@   ghost_exit $catAddOK = store($catAddOK, meta, added)
+//@   ensures[C12] onlynew: added == !old(catHas(cat, astID))
+//@   ensures[C12] filed: added ==> catHas(cat, astID) && cat.Data[astID] == meta
+//@   ensures[C12] kept: forall k string :: old(catHas(cat, k)) ==> catHas(cat, k) && cat.Data[k] == old(cat.Data[k])
+//@   ensures[C12] nothingelse: forall k string :: k != astID ==> catHas(cat, k) == old(catHas(cat, k))
+//@   ensures[C12] samemap: (old(cat.Data) != nil ==> cat.Data == old(cat.Data)) && (old(cat.Data) == nil && cat.Data != nil ==> fresh(cat.Data))
+//@   ensures[C12] othercats: forall c *Catalog :: c != cat ==> c.Data == old(c.Data)
+//@   ensures[C12] othermaps: forall m map[string]Meta, k string :: old(allocated(m)) && m != old(cat.Data) ==> has(m, k) == old(has(m, k)) && m[k] == old(m[k])
+//@   ensures othermapslen: forall m map[string]Meta :: old(allocated(m)) && m != old(cat.Data) ==> len(m) == old(len(m))
+//@   ensures allocmono: forall p Ref :: old(allocated(p)) ==> allocated(p)
 // what a node-level MakeCatalog may touch: it creates records and files them; it writes no record that existed before the call and
 // files none it did not create (ASSUMED for the child calls below; the two LIST-valued nodes are CHECKED against their bodies)
 //@ modset catfx = $catAddN, $catAddOK, alloc, $allocated, fresh ArgumentListMeta.*, fresh ArrayMapSelectorMeta.*, fresh AssigmentMeta.*, fresh ConstantMeta.*, fresh ExpressionMeta.*, fresh ExpressionAtomMeta.*, fresh FunctionCallMeta.*, fresh RuleEntryMeta.*, fresh ThenExpressionMeta.*, fresh ThenExpressionListMeta.*, fresh ThenScopeMeta.*, fresh VariableMeta.*, fresh WhenScopeMeta.*, fresh NodeMeta.*
-//@ extern func (e *Expression) MakeCatalog(cat) ()
-//@   modifies @catfx
-//@   ensures forall m Ref :: old(allocated(m)) ==> $catAddOK[m] == old($catAddOK[m])
-//@ extern func (e *ThenExpression) MakeCatalog(cat) ()
-//@   modifies @catfx
-//@   ensures forall m Ref :: old(allocated(m)) ==> $catAddOK[m] == old($catAddOK[m])
-// C12: the record a list-valued node files lists EXACTLY the node's elements, one id per element, in order (a record that lost,
-// repeated or reordered an element rebuilds a different call or a different action list without any error). Stated as the loop
-// invariant `sofar` over the record this call created and AddMeta accepted ($catAddOK[meta]): it has one slot per element from the
-// start and slot j holds element j's id for every element processed; nothing else writes the record (frame: only records created
-// during the call are written, `oldrecords`). There is no postcondition naming the record: a contract cannot name the local.
+//@ extern func (e *ThenExpressionList) GetSnapshot() (s)
+//@   modifies
+//@ extern func (e *RuleEntry) GetSnapshot() (s)
+//@   nopanic
+//@ extern func (e *ThenScope) GetSnapshot() (s)
+//@   modifies
+// C12 (store side): see the generated block below. The record a list-valued node files lists EXACTLY the node's elements, one id per
+// element, in order (loop invariant `sofar`); every single-linked node files a record that carries each link and scalar its
+// record type declares.
+// ---- generated by /verif/gen/gen_makecatalog_contracts.py: node-level MakeCatalog (store side of C12), oracle = the *Meta struct declarations ----
+//@ macro func catNew(cat *Catalog, k string) bool { return catHas(cat, k) && !old(catHas(cat, k)) }
 //@ func (e *ArgumentList) MakeCatalog(cat) ()
 //@   serves C12
 //@   requires e != nil && cat != nil
 //@   opt alloc=1
-//@   modifies @catfx
-//@   invariant@1 sofar: meta != nil && !old(allocated(meta)) && e == old(e) && len(meta.ArgumentASTIDs) == len(e.Arguments) && (forall j int :: 0 <= j && j < $i ==> meta.ArgumentASTIDs[j] == e.Arguments[j].AstID) && $catAddOK[meta]
+//@   modifies @catfx, Catalog.Data, map[string]Meta
+//@   invariant@1 sofar: meta != nil && !old(allocated(meta)) && typeof(meta) == typeid(*ArgumentListMeta) && e == old(e) && cat == old(cat) && catHas(cat, e.AstID) && cat.Data[e.AstID] == meta && !old(catHas(cat, e.AstID)) && meta.AstID == e.AstID && meta.GrlText == e.GrlText && len(meta.ArgumentASTIDs) == len(e.Arguments) && (forall j int :: 0 <= j && j < $i ==> meta.ArgumentASTIDs[j] == e.Arguments[j].AstID) && $catAddOK[meta]
+//@   invariant@1 childrenfiled: forall j int :: 0 <= j && j < $i ==> catHas(cat, e.Arguments[j].AstID)
 //@   invariant@1 oldrecords: forall m *ArgumentListMeta :: old(allocated(m)) ==> m.ArgumentASTIDs == old(m.ArgumentASTIDs)
+//@   invariant@1 kept: forall k string :: old(catHas(cat, k)) ==> catHas(cat, k) && cat.Data[k] == old(cat.Data[k])
+//@   invariant@1 samemap: (old(cat.Data) != nil ==> cat.Data == old(cat.Data)) && (old(cat.Data) == nil && cat.Data != nil ==> fresh(cat.Data))
+//@   invariant@1 wellfiled: forall k string {cat.Data[k]} :: catNew(cat, k) ==> isMeta(cat.Data[k]) && fresh(cat.Data[k]) && metaAstID(cat.Data[k]) == k
+//@   invariant@1 othercats: forall c *Catalog :: c != cat ==> c.Data == old(c.Data)
+//@   invariant@1 othermaps: forall m map[string]Meta, k string :: old(allocated(m)) && m != old(cat.Data) ==> has(m, k) == old(has(m, k)) && m[k] == old(m[k])
+//@   invariant@1 othermapslen: forall m map[string]Meta :: old(allocated(m)) && m != old(cat.Data) ==> len(m) == old(len(m))
 //@   invariant@1 others: forall m Ref :: old(allocated(m)) ==> $catAddOK[m] == old($catAddOK[m])
+//@   invariant@1 allocmono: forall p Ref :: old(allocated(p)) ==> allocated(p)
+//@   ensures[C12] filed: catHas(cat, e.AstID)
+//@   ensures[C12] record: !old(catHas(cat, e.AstID)) ==> typeof(cat.Data[e.AstID]) == typeid(*ArgumentListMeta) && as(cat.Data[e.AstID], *ArgumentListMeta).AstID == e.AstID && as(cat.Data[e.AstID], *ArgumentListMeta).GrlText == e.GrlText && len(as(cat.Data[e.AstID], *ArgumentListMeta).ArgumentASTIDs) == len(e.Arguments) && (forall j int :: 0 <= j && j < len(e.Arguments) ==> as(cat.Data[e.AstID], *ArgumentListMeta).ArgumentASTIDs[j] == e.Arguments[j].AstID)
+//@   ensures[C12] children: !old(catHas(cat, e.AstID)) ==> (forall j int :: 0 <= j && j < len(e.Arguments) ==> catHas(cat, e.Arguments[j].AstID))
+//@   ensures[C12] kept: forall k string :: old(catHas(cat, k)) ==> catHas(cat, k) && cat.Data[k] == old(cat.Data[k])
+//@   ensures[C12] samemap: (old(cat.Data) != nil ==> cat.Data == old(cat.Data)) && (old(cat.Data) == nil && cat.Data != nil ==> fresh(cat.Data))
+//@   ensures[C12] wellfiled: forall k string {cat.Data[k]} :: catNew(cat, k) ==> isMeta(cat.Data[k]) && fresh(cat.Data[k]) && metaAstID(cat.Data[k]) == k
+//@   ensures[C12] othercats: forall c *Catalog :: c != cat ==> c.Data == old(c.Data)
+//@   ensures[C12] othermaps: forall m map[string]Meta, k string :: old(allocated(m)) && m != old(cat.Data) ==> has(m, k) == old(has(m, k)) && m[k] == old(m[k])
+//@   ensures othermapslen: forall m map[string]Meta :: old(allocated(m)) && m != old(cat.Data) ==> len(m) == old(len(m))
 //@   ensures others: forall m Ref :: old(allocated(m)) ==> $catAddOK[m] == old($catAddOK[m])
-//@ extern func (e *ThenExpressionList) GetSnapshot() (s)
-//@   modifies
-//@ func (e *ThenExpressionList) MakeCatalog(cat) ()
+//@   ensures allocmono: forall p Ref :: old(allocated(p)) ==> allocated(p)
+//@ func (e *ArrayMapSelector) MakeCatalog(cat) ()
 //@   serves C12
 //@   requires e != nil && cat != nil
 //@   opt alloc=1
-//@   modifies @catfx
-//@   invariant@1 sofar: meta != nil && !old(allocated(meta)) && e == old(e) && len(meta.ThenExpressionIDs) == len(e.ThenExpressions) && (forall j int :: 0 <= j && j < $i ==> meta.ThenExpressionIDs[j] == e.ThenExpressions[j].AstID) && $catAddOK[meta]
-//@   invariant@1 oldrecords: forall m *ThenExpressionListMeta :: old(allocated(m)) ==> m.ThenExpressionIDs == old(m.ThenExpressionIDs)
-//@   invariant@1 others: forall m Ref :: old(allocated(m)) ==> $catAddOK[m] == old($catAddOK[m])
+//@   modifies @catfx, Catalog.Data, map[string]Meta
+//@   ensures[C12] filed: catHas(cat, e.AstID)
+//@   ensures[C12] record: !old(catHas(cat, e.AstID)) ==> typeof(cat.Data[e.AstID]) == typeid(*ArrayMapSelectorMeta) && as(cat.Data[e.AstID], *ArrayMapSelectorMeta).AstID == e.AstID && as(cat.Data[e.AstID], *ArrayMapSelectorMeta).GrlText == e.GrlText && (e.Expression != nil ==> as(cat.Data[e.AstID], *ArrayMapSelectorMeta).ExpressionID == e.Expression.AstID) && (e.Expression == nil ==> as(cat.Data[e.AstID], *ArrayMapSelectorMeta).ExpressionID == "")
+//@   ensures[C12] children: !old(catHas(cat, e.AstID)) ==> (e.Expression != nil ==> catHas(cat, e.Expression.AstID))
+//@   ensures[C12] kept: forall k string :: old(catHas(cat, k)) ==> catHas(cat, k) && cat.Data[k] == old(cat.Data[k])
+//@   ensures[C12] samemap: (old(cat.Data) != nil ==> cat.Data == old(cat.Data)) && (old(cat.Data) == nil && cat.Data != nil ==> fresh(cat.Data))
+//@   ensures[C12] wellfiled: forall k string {cat.Data[k]} :: catNew(cat, k) ==> isMeta(cat.Data[k]) && fresh(cat.Data[k]) && metaAstID(cat.Data[k]) == k
+//@   ensures[C12] othercats: forall c *Catalog :: c != cat ==> c.Data == old(c.Data)
+//@   ensures[C12] othermaps: forall m map[string]Meta, k string :: old(allocated(m)) && m != old(cat.Data) ==> has(m, k) == old(has(m, k)) && m[k] == old(m[k])
+//@   ensures othermapslen: forall m map[string]Meta :: old(allocated(m)) && m != old(cat.Data) ==> len(m) == old(len(m))
 //@   ensures others: forall m Ref :: old(allocated(m)) ==> $catAddOK[m] == old($catAddOK[m])
-//@ extern func (e *RuleEntry) GetSnapshot() (s)
-//@   nopanic
-//@ extern func (e *WhenScope) MakeCatalog(cat) ()
-//@   modifies $catAddN, $catAddOK
-//@ extern func (e *ThenScope) MakeCatalog(cat) ()
-//@   modifies $catAddN, $catAddOK
+//@   ensures allocmono: forall p Ref :: old(allocated(p)) ==> allocated(p)
+//@ func (e *Assignment) MakeCatalog(cat) ()
+//@   serves C12
+//@   requires e != nil && cat != nil
+//@   opt alloc=1
+//@   modifies @catfx, Catalog.Data, map[string]Meta
+//@   ensures[C12] filed: catHas(cat, e.AstID)
+//@   ensures[C12] record: !old(catHas(cat, e.AstID)) ==> typeof(cat.Data[e.AstID]) == typeid(*AssigmentMeta) && as(cat.Data[e.AstID], *AssigmentMeta).AstID == e.AstID && as(cat.Data[e.AstID], *AssigmentMeta).GrlText == e.GrlText && (e.Variable != nil ==> as(cat.Data[e.AstID], *AssigmentMeta).VariableID == e.Variable.AstID) && (e.Variable == nil ==> as(cat.Data[e.AstID], *AssigmentMeta).VariableID == "") && (e.Expression != nil ==> as(cat.Data[e.AstID], *AssigmentMeta).ExpressionID == e.Expression.AstID) && (e.Expression == nil ==> as(cat.Data[e.AstID], *AssigmentMeta).ExpressionID == "") && as(cat.Data[e.AstID], *AssigmentMeta).IsAssign == e.IsAssign && as(cat.Data[e.AstID], *AssigmentMeta).IsPlusAssign == e.IsPlusAssign && as(cat.Data[e.AstID], *AssigmentMeta).IsMinusAssign == e.IsMinusAssign && as(cat.Data[e.AstID], *AssigmentMeta).IsDivAssign == e.IsDivAssign && as(cat.Data[e.AstID], *AssigmentMeta).IsMulAssign == e.IsMulAssign
+//@   ensures[C12] children: !old(catHas(cat, e.AstID)) ==> (e.Variable != nil ==> catHas(cat, e.Variable.AstID)) && (e.Expression != nil ==> catHas(cat, e.Expression.AstID))
+//@   ensures[C12] kept: forall k string :: old(catHas(cat, k)) ==> catHas(cat, k) && cat.Data[k] == old(cat.Data[k])
+//@   ensures[C12] samemap: (old(cat.Data) != nil ==> cat.Data == old(cat.Data)) && (old(cat.Data) == nil && cat.Data != nil ==> fresh(cat.Data))
+//@   ensures[C12] wellfiled: forall k string {cat.Data[k]} :: catNew(cat, k) ==> isMeta(cat.Data[k]) && fresh(cat.Data[k]) && metaAstID(cat.Data[k]) == k
+//@   ensures[C12] othercats: forall c *Catalog :: c != cat ==> c.Data == old(c.Data)
+//@   ensures[C12] othermaps: forall m map[string]Meta, k string :: old(allocated(m)) && m != old(cat.Data) ==> has(m, k) == old(has(m, k)) && m[k] == old(m[k])
+//@   ensures othermapslen: forall m map[string]Meta :: old(allocated(m)) && m != old(cat.Data) ==> len(m) == old(len(m))
+//@   ensures others: forall m Ref :: old(allocated(m)) ==> $catAddOK[m] == old($catAddOK[m])
+//@   ensures allocmono: forall p Ref :: old(allocated(p)) ==> allocated(p)
+// ASSUMED (a by-value bytes.Buffer local and byte-level encoding: outside the verified subset): only the catalogue discipline is stated
+//@ extern func (e *Constant) MakeCatalog(cat) ()
+//@   modifies @catfx, Catalog.Data, map[string]Meta
+//@   ensures filed: catHas(cat, e.AstID)
+//@   ensures record: !old(catHas(cat, e.AstID)) ==> typeof(cat.Data[e.AstID]) == typeid(*ConstantMeta)
+//@   ensures kept: forall k string :: old(catHas(cat, k)) ==> catHas(cat, k) && cat.Data[k] == old(cat.Data[k])
+//@   ensures samemap: (old(cat.Data) != nil ==> cat.Data == old(cat.Data)) && (old(cat.Data) == nil && cat.Data != nil ==> fresh(cat.Data))
+//@   ensures wellfiled: forall k string {cat.Data[k]} :: catNew(cat, k) ==> isMeta(cat.Data[k]) && fresh(cat.Data[k]) && metaAstID(cat.Data[k]) == k
+//@   ensures othercats: forall c *Catalog :: c != cat ==> c.Data == old(c.Data)
+//@   ensures othermaps: forall m map[string]Meta, k string :: old(allocated(m)) && m != old(cat.Data) ==> has(m, k) == old(has(m, k)) && m[k] == old(m[k])
+//@   ensures othermapslen: forall m map[string]Meta :: old(allocated(m)) && m != old(cat.Data) ==> len(m) == old(len(m))
+//@   ensures others: forall m Ref :: old(allocated(m)) ==> $catAddOK[m] == old($catAddOK[m])
+//@   ensures allocmono: forall p Ref :: old(allocated(p)) ==> allocated(p)
+//@ func (e *Expression) MakeCatalog(cat) ()
+//@   serves C12
+//@   requires e != nil && cat != nil
+//@   opt alloc=1
+//@   modifies @catfx, Catalog.Data, map[string]Meta
+//@   ensures[C12] filed: catHas(cat, e.AstID)
+//@   ensures[C12] record: !old(catHas(cat, e.AstID)) ==> typeof(cat.Data[e.AstID]) == typeid(*ExpressionMeta) && as(cat.Data[e.AstID], *ExpressionMeta).AstID == e.AstID && as(cat.Data[e.AstID], *ExpressionMeta).GrlText == e.GrlText && (e.LeftExpression != nil ==> as(cat.Data[e.AstID], *ExpressionMeta).LeftExpressionID == e.LeftExpression.AstID) && (e.LeftExpression == nil ==> as(cat.Data[e.AstID], *ExpressionMeta).LeftExpressionID == "") && (e.RightExpression != nil ==> as(cat.Data[e.AstID], *ExpressionMeta).RightExpressionID == e.RightExpression.AstID) && (e.RightExpression == nil ==> as(cat.Data[e.AstID], *ExpressionMeta).RightExpressionID == "") && (e.SingleExpression != nil ==> as(cat.Data[e.AstID], *ExpressionMeta).SingleExpressionID == e.SingleExpression.AstID) && (e.SingleExpression == nil ==> as(cat.Data[e.AstID], *ExpressionMeta).SingleExpressionID == "") && (e.ExpressionAtom != nil ==> as(cat.Data[e.AstID], *ExpressionMeta).ExpressionAtomID == e.ExpressionAtom.AstID) && (e.ExpressionAtom == nil ==> as(cat.Data[e.AstID], *ExpressionMeta).ExpressionAtomID == "") && as(cat.Data[e.AstID], *ExpressionMeta).Operator == e.Operator && as(cat.Data[e.AstID], *ExpressionMeta).Negated == e.Negated
+//@   ensures[C12] children: !old(catHas(cat, e.AstID)) ==> (e.LeftExpression != nil ==> catHas(cat, e.LeftExpression.AstID)) && (e.RightExpression != nil ==> catHas(cat, e.RightExpression.AstID)) && (e.SingleExpression != nil ==> catHas(cat, e.SingleExpression.AstID)) && (e.ExpressionAtom != nil ==> catHas(cat, e.ExpressionAtom.AstID))
+//@   ensures[C12] kept: forall k string :: old(catHas(cat, k)) ==> catHas(cat, k) && cat.Data[k] == old(cat.Data[k])
+//@   ensures[C12] samemap: (old(cat.Data) != nil ==> cat.Data == old(cat.Data)) && (old(cat.Data) == nil && cat.Data != nil ==> fresh(cat.Data))
+//@   ensures[C12] wellfiled: forall k string {cat.Data[k]} :: catNew(cat, k) ==> isMeta(cat.Data[k]) && fresh(cat.Data[k]) && metaAstID(cat.Data[k]) == k
+//@   ensures[C12] othercats: forall c *Catalog :: c != cat ==> c.Data == old(c.Data)
+//@   ensures[C12] othermaps: forall m map[string]Meta, k string :: old(allocated(m)) && m != old(cat.Data) ==> has(m, k) == old(has(m, k)) && m[k] == old(m[k])
+//@   ensures othermapslen: forall m map[string]Meta :: old(allocated(m)) && m != old(cat.Data) ==> len(m) == old(len(m))
+//@   ensures others: forall m Ref :: old(allocated(m)) ==> $catAddOK[m] == old($catAddOK[m])
+//@   ensures allocmono: forall p Ref :: old(allocated(p)) ==> allocated(p)
+//@ func (e *ExpressionAtom) MakeCatalog(cat) ()
+//@   serves C12
+//@   requires e != nil && cat != nil
+//@   opt alloc=1
+//@   modifies @catfx, Catalog.Data, map[string]Meta
+//@   ensures[C12] filed: catHas(cat, e.AstID)
+//@   ensures[C12] record: !old(catHas(cat, e.AstID)) ==> typeof(cat.Data[e.AstID]) == typeid(*ExpressionAtomMeta) && as(cat.Data[e.AstID], *ExpressionAtomMeta).AstID == e.AstID && as(cat.Data[e.AstID], *ExpressionAtomMeta).GrlText == e.GrlText && (e.Constant != nil ==> as(cat.Data[e.AstID], *ExpressionAtomMeta).ConstantID == e.Constant.AstID) && (e.Constant == nil ==> as(cat.Data[e.AstID], *ExpressionAtomMeta).ConstantID == "") && (e.FunctionCall != nil ==> as(cat.Data[e.AstID], *ExpressionAtomMeta).FunctionCallID == e.FunctionCall.AstID) && (e.FunctionCall == nil ==> as(cat.Data[e.AstID], *ExpressionAtomMeta).FunctionCallID == "") && (e.Variable != nil ==> as(cat.Data[e.AstID], *ExpressionAtomMeta).VariableID == e.Variable.AstID) && (e.Variable == nil ==> as(cat.Data[e.AstID], *ExpressionAtomMeta).VariableID == "") && (e.ExpressionAtom != nil ==> as(cat.Data[e.AstID], *ExpressionAtomMeta).ExpressionAtomID == e.ExpressionAtom.AstID) && (e.ExpressionAtom == nil ==> as(cat.Data[e.AstID], *ExpressionAtomMeta).ExpressionAtomID == "") && (e.ArrayMapSelector != nil ==> as(cat.Data[e.AstID], *ExpressionAtomMeta).ArrayMapSelectorID == e.ArrayMapSelector.AstID) && (e.ArrayMapSelector == nil ==> as(cat.Data[e.AstID], *ExpressionAtomMeta).ArrayMapSelectorID == "") && as(cat.Data[e.AstID], *ExpressionAtomMeta).VariableName == e.VariableName && as(cat.Data[e.AstID], *ExpressionAtomMeta).Negated == e.Negated
+//@   ensures[C12] children: !old(catHas(cat, e.AstID)) ==> (e.Constant != nil ==> catHas(cat, e.Constant.AstID)) && (e.FunctionCall != nil ==> catHas(cat, e.FunctionCall.AstID)) && (e.Variable != nil ==> catHas(cat, e.Variable.AstID)) && (e.ExpressionAtom != nil ==> catHas(cat, e.ExpressionAtom.AstID)) && (e.ArrayMapSelector != nil ==> catHas(cat, e.ArrayMapSelector.AstID))
+//@   ensures[C12] kept: forall k string :: old(catHas(cat, k)) ==> catHas(cat, k) && cat.Data[k] == old(cat.Data[k])
+//@   ensures[C12] samemap: (old(cat.Data) != nil ==> cat.Data == old(cat.Data)) && (old(cat.Data) == nil && cat.Data != nil ==> fresh(cat.Data))
+//@   ensures[C12] wellfiled: forall k string {cat.Data[k]} :: catNew(cat, k) ==> isMeta(cat.Data[k]) && fresh(cat.Data[k]) && metaAstID(cat.Data[k]) == k
+//@   ensures[C12] othercats: forall c *Catalog :: c != cat ==> c.Data == old(c.Data)
+//@   ensures[C12] othermaps: forall m map[string]Meta, k string :: old(allocated(m)) && m != old(cat.Data) ==> has(m, k) == old(has(m, k)) && m[k] == old(m[k])
+//@   ensures othermapslen: forall m map[string]Meta :: old(allocated(m)) && m != old(cat.Data) ==> len(m) == old(len(m))
+//@   ensures others: forall m Ref :: old(allocated(m)) ==> $catAddOK[m] == old($catAddOK[m])
+//@   ensures allocmono: forall p Ref :: old(allocated(p)) ==> allocated(p)
+//@ func (e *FunctionCall) MakeCatalog(cat) ()
+//@   serves C12
+//@   requires e != nil && cat != nil
+//@   opt alloc=1
+//@   modifies @catfx, Catalog.Data, map[string]Meta
+//@   ensures[C12] filed: catHas(cat, e.AstID)
+//@   ensures[C12] record: !old(catHas(cat, e.AstID)) ==> typeof(cat.Data[e.AstID]) == typeid(*FunctionCallMeta) && as(cat.Data[e.AstID], *FunctionCallMeta).AstID == e.AstID && as(cat.Data[e.AstID], *FunctionCallMeta).GrlText == e.GrlText && (e.ArgumentList != nil ==> as(cat.Data[e.AstID], *FunctionCallMeta).ArgumentListID == e.ArgumentList.AstID) && (e.ArgumentList == nil ==> as(cat.Data[e.AstID], *FunctionCallMeta).ArgumentListID == "") && as(cat.Data[e.AstID], *FunctionCallMeta).FunctionName == e.FunctionName
+//@   ensures[C12] children: !old(catHas(cat, e.AstID)) ==> (e.ArgumentList != nil ==> catHas(cat, e.ArgumentList.AstID))
+//@   ensures[C12] kept: forall k string :: old(catHas(cat, k)) ==> catHas(cat, k) && cat.Data[k] == old(cat.Data[k])
+//@   ensures[C12] samemap: (old(cat.Data) != nil ==> cat.Data == old(cat.Data)) && (old(cat.Data) == nil && cat.Data != nil ==> fresh(cat.Data))
+//@   ensures[C12] wellfiled: forall k string {cat.Data[k]} :: catNew(cat, k) ==> isMeta(cat.Data[k]) && fresh(cat.Data[k]) && metaAstID(cat.Data[k]) == k
+//@   ensures[C12] othercats: forall c *Catalog :: c != cat ==> c.Data == old(c.Data)
+//@   ensures[C12] othermaps: forall m map[string]Meta, k string :: old(allocated(m)) && m != old(cat.Data) ==> has(m, k) == old(has(m, k)) && m[k] == old(m[k])
+//@   ensures othermapslen: forall m map[string]Meta :: old(allocated(m)) && m != old(cat.Data) ==> len(m) == old(len(m))
+//@   ensures others: forall m Ref :: old(allocated(m)) ==> $catAddOK[m] == old($catAddOK[m])
+//@   ensures allocmono: forall p Ref :: old(allocated(p)) ==> allocated(p)
 //@ func (e *RuleEntry) MakeCatalog(cat) ()
 //@   serves C12 C16
 //@   requires e != nil && cat != nil
 //@   opt alloc=1
-//@   modifies $catAddN, $catAddOK, alloc, RuleEntryMeta.*
+//@   modifies @catfx, Catalog.Data, map[string]Meta
+// F5 (C12, C16): the rule-entry record has no field for Deleted, so "a removed rule never fires again, including after store and
+// load" can only hold if a removed entry is not catalogued as a live rule (open known finding)
 //@   ensures[C12,C16] deletednotstored: e.Deleted ==> $catAddN == old($catAddN)
+//@   ensures[C12] filed: catHas(cat, e.AstID)
+//@   ensures[C12] record: !old(catHas(cat, e.AstID)) ==> typeof(cat.Data[e.AstID]) == typeid(*RuleEntryMeta) && as(cat.Data[e.AstID], *RuleEntryMeta).AstID == e.AstID && as(cat.Data[e.AstID], *RuleEntryMeta).GrlText == e.GrlText && (e.WhenScope != nil ==> as(cat.Data[e.AstID], *RuleEntryMeta).WhenScopeID == e.WhenScope.AstID) && (e.WhenScope == nil ==> as(cat.Data[e.AstID], *RuleEntryMeta).WhenScopeID == "") && (e.ThenScope != nil ==> as(cat.Data[e.AstID], *RuleEntryMeta).ThenScopeID == e.ThenScope.AstID) && (e.ThenScope == nil ==> as(cat.Data[e.AstID], *RuleEntryMeta).ThenScopeID == "") && as(cat.Data[e.AstID], *RuleEntryMeta).RuleName == e.RuleName && as(cat.Data[e.AstID], *RuleEntryMeta).RuleDescription == e.RuleDescription && as(cat.Data[e.AstID], *RuleEntryMeta).Salience == e.Salience
+//@   ensures[C12] children: !old(catHas(cat, e.AstID)) ==> (e.WhenScope != nil ==> catHas(cat, e.WhenScope.AstID)) && (e.ThenScope != nil ==> catHas(cat, e.ThenScope.AstID))
+//@   ensures[C12] kept: forall k string :: old(catHas(cat, k)) ==> catHas(cat, k) && cat.Data[k] == old(cat.Data[k])
+//@   ensures[C12] samemap: (old(cat.Data) != nil ==> cat.Data == old(cat.Data)) && (old(cat.Data) == nil && cat.Data != nil ==> fresh(cat.Data))
+//@   ensures[C12] wellfiled: forall k string {cat.Data[k]} :: catNew(cat, k) ==> isMeta(cat.Data[k]) && fresh(cat.Data[k]) && metaAstID(cat.Data[k]) == k
+//@   ensures[C12] othercats: forall c *Catalog :: c != cat ==> c.Data == old(c.Data)
+//@   ensures[C12] othermaps: forall m map[string]Meta, k string :: old(allocated(m)) && m != old(cat.Data) ==> has(m, k) == old(has(m, k)) && m[k] == old(m[k])
+//@   ensures othermapslen: forall m map[string]Meta :: old(allocated(m)) && m != old(cat.Data) ==> len(m) == old(len(m))
+//@   ensures others: forall m Ref :: old(allocated(m)) ==> $catAddOK[m] == old($catAddOK[m])
+//@   ensures allocmono: forall p Ref :: old(allocated(p)) ==> allocated(p)
+//@ func (e *ThenExpression) MakeCatalog(cat) ()
+//@   serves C12
+//@   requires e != nil && cat != nil
+//@   opt alloc=1
+//@   modifies @catfx, Catalog.Data, map[string]Meta
+//@   ensures[C12] filed: catHas(cat, e.AstID)
+//@   ensures[C12] record: !old(catHas(cat, e.AstID)) ==> typeof(cat.Data[e.AstID]) == typeid(*ThenExpressionMeta) && as(cat.Data[e.AstID], *ThenExpressionMeta).AstID == e.AstID && as(cat.Data[e.AstID], *ThenExpressionMeta).GrlText == e.GrlText && (e.Assignment != nil ==> as(cat.Data[e.AstID], *ThenExpressionMeta).AssignmentID == e.Assignment.AstID) && (e.Assignment == nil ==> as(cat.Data[e.AstID], *ThenExpressionMeta).AssignmentID == "") && (e.ExpressionAtom != nil ==> as(cat.Data[e.AstID], *ThenExpressionMeta).ExpressionAtomID == e.ExpressionAtom.AstID) && (e.ExpressionAtom == nil ==> as(cat.Data[e.AstID], *ThenExpressionMeta).ExpressionAtomID == "")
+//@   ensures[C12] children: !old(catHas(cat, e.AstID)) ==> (e.Assignment != nil ==> catHas(cat, e.Assignment.AstID)) && (e.ExpressionAtom != nil ==> catHas(cat, e.ExpressionAtom.AstID))
+//@   ensures[C12] kept: forall k string :: old(catHas(cat, k)) ==> catHas(cat, k) && cat.Data[k] == old(cat.Data[k])
+//@   ensures[C12] samemap: (old(cat.Data) != nil ==> cat.Data == old(cat.Data)) && (old(cat.Data) == nil && cat.Data != nil ==> fresh(cat.Data))
+//@   ensures[C12] wellfiled: forall k string {cat.Data[k]} :: catNew(cat, k) ==> isMeta(cat.Data[k]) && fresh(cat.Data[k]) && metaAstID(cat.Data[k]) == k
+//@   ensures[C12] othercats: forall c *Catalog :: c != cat ==> c.Data == old(c.Data)
+//@   ensures[C12] othermaps: forall m map[string]Meta, k string :: old(allocated(m)) && m != old(cat.Data) ==> has(m, k) == old(has(m, k)) && m[k] == old(m[k])
+//@   ensures othermapslen: forall m map[string]Meta :: old(allocated(m)) && m != old(cat.Data) ==> len(m) == old(len(m))
+//@   ensures others: forall m Ref :: old(allocated(m)) ==> $catAddOK[m] == old($catAddOK[m])
+//@   ensures allocmono: forall p Ref :: old(allocated(p)) ==> allocated(p)
+//@ func (e *ThenExpressionList) MakeCatalog(cat) ()
+//@   serves C12
+//@   requires e != nil && cat != nil
+//@   opt alloc=1
+//@   modifies @catfx, Catalog.Data, map[string]Meta
+//@   invariant@1 sofar: meta != nil && !old(allocated(meta)) && typeof(meta) == typeid(*ThenExpressionListMeta) && e == old(e) && cat == old(cat) && catHas(cat, e.AstID) && cat.Data[e.AstID] == meta && !old(catHas(cat, e.AstID)) && meta.AstID == e.AstID && meta.GrlText == e.GrlText && len(meta.ThenExpressionIDs) == len(e.ThenExpressions) && (forall j int :: 0 <= j && j < $i ==> meta.ThenExpressionIDs[j] == e.ThenExpressions[j].AstID) && $catAddOK[meta]
+//@   invariant@1 childrenfiled: forall j int :: 0 <= j && j < $i ==> catHas(cat, e.ThenExpressions[j].AstID)
+//@   invariant@1 oldrecords: forall m *ThenExpressionListMeta :: old(allocated(m)) ==> m.ThenExpressionIDs == old(m.ThenExpressionIDs)
+//@   invariant@1 kept: forall k string :: old(catHas(cat, k)) ==> catHas(cat, k) && cat.Data[k] == old(cat.Data[k])
+//@   invariant@1 samemap: (old(cat.Data) != nil ==> cat.Data == old(cat.Data)) && (old(cat.Data) == nil && cat.Data != nil ==> fresh(cat.Data))
+//@   invariant@1 wellfiled: forall k string {cat.Data[k]} :: catNew(cat, k) ==> isMeta(cat.Data[k]) && fresh(cat.Data[k]) && metaAstID(cat.Data[k]) == k
+//@   invariant@1 othercats: forall c *Catalog :: c != cat ==> c.Data == old(c.Data)
+//@   invariant@1 othermaps: forall m map[string]Meta, k string :: old(allocated(m)) && m != old(cat.Data) ==> has(m, k) == old(has(m, k)) && m[k] == old(m[k])
+//@   invariant@1 othermapslen: forall m map[string]Meta :: old(allocated(m)) && m != old(cat.Data) ==> len(m) == old(len(m))
+//@   invariant@1 others: forall m Ref :: old(allocated(m)) ==> $catAddOK[m] == old($catAddOK[m])
+//@   invariant@1 allocmono: forall p Ref :: old(allocated(p)) ==> allocated(p)
+//@   ensures[C12] filed: catHas(cat, e.AstID)
+//@   ensures[C12] record: !old(catHas(cat, e.AstID)) ==> typeof(cat.Data[e.AstID]) == typeid(*ThenExpressionListMeta) && as(cat.Data[e.AstID], *ThenExpressionListMeta).AstID == e.AstID && as(cat.Data[e.AstID], *ThenExpressionListMeta).GrlText == e.GrlText && len(as(cat.Data[e.AstID], *ThenExpressionListMeta).ThenExpressionIDs) == len(e.ThenExpressions) && (forall j int :: 0 <= j && j < len(e.ThenExpressions) ==> as(cat.Data[e.AstID], *ThenExpressionListMeta).ThenExpressionIDs[j] == e.ThenExpressions[j].AstID)
+//@   ensures[C12] children: !old(catHas(cat, e.AstID)) ==> (forall j int :: 0 <= j && j < len(e.ThenExpressions) ==> catHas(cat, e.ThenExpressions[j].AstID))
+//@   ensures[C12] kept: forall k string :: old(catHas(cat, k)) ==> catHas(cat, k) && cat.Data[k] == old(cat.Data[k])
+//@   ensures[C12] samemap: (old(cat.Data) != nil ==> cat.Data == old(cat.Data)) && (old(cat.Data) == nil && cat.Data != nil ==> fresh(cat.Data))
+//@   ensures[C12] wellfiled: forall k string {cat.Data[k]} :: catNew(cat, k) ==> isMeta(cat.Data[k]) && fresh(cat.Data[k]) && metaAstID(cat.Data[k]) == k
+//@   ensures[C12] othercats: forall c *Catalog :: c != cat ==> c.Data == old(c.Data)
+//@   ensures[C12] othermaps: forall m map[string]Meta, k string :: old(allocated(m)) && m != old(cat.Data) ==> has(m, k) == old(has(m, k)) && m[k] == old(m[k])
+//@   ensures othermapslen: forall m map[string]Meta :: old(allocated(m)) && m != old(cat.Data) ==> len(m) == old(len(m))
+//@   ensures others: forall m Ref :: old(allocated(m)) ==> $catAddOK[m] == old($catAddOK[m])
+//@   ensures allocmono: forall p Ref :: old(allocated(p)) ==> allocated(p)
+//@ func (e *ThenScope) MakeCatalog(cat) ()
+//@   serves C12
+//@   requires e != nil && cat != nil
+//@   opt alloc=1
+//@   modifies @catfx, Catalog.Data, map[string]Meta
+//@   ensures[C12] filed: catHas(cat, e.AstID)
+//@   ensures[C12] record: !old(catHas(cat, e.AstID)) ==> typeof(cat.Data[e.AstID]) == typeid(*ThenScopeMeta) && as(cat.Data[e.AstID], *ThenScopeMeta).AstID == e.AstID && as(cat.Data[e.AstID], *ThenScopeMeta).GrlText == e.GrlText && (e.ThenExpressionList != nil ==> as(cat.Data[e.AstID], *ThenScopeMeta).ThenExpressionListID == e.ThenExpressionList.AstID) && (e.ThenExpressionList == nil ==> as(cat.Data[e.AstID], *ThenScopeMeta).ThenExpressionListID == "")
+//@   ensures[C12] children: !old(catHas(cat, e.AstID)) ==> (e.ThenExpressionList != nil ==> catHas(cat, e.ThenExpressionList.AstID))
+//@   ensures[C12] kept: forall k string :: old(catHas(cat, k)) ==> catHas(cat, k) && cat.Data[k] == old(cat.Data[k])
+//@   ensures[C12] samemap: (old(cat.Data) != nil ==> cat.Data == old(cat.Data)) && (old(cat.Data) == nil && cat.Data != nil ==> fresh(cat.Data))
+//@   ensures[C12] wellfiled: forall k string {cat.Data[k]} :: catNew(cat, k) ==> isMeta(cat.Data[k]) && fresh(cat.Data[k]) && metaAstID(cat.Data[k]) == k
+//@   ensures[C12] othercats: forall c *Catalog :: c != cat ==> c.Data == old(c.Data)
+//@   ensures[C12] othermaps: forall m map[string]Meta, k string :: old(allocated(m)) && m != old(cat.Data) ==> has(m, k) == old(has(m, k)) && m[k] == old(m[k])
+//@   ensures othermapslen: forall m map[string]Meta :: old(allocated(m)) && m != old(cat.Data) ==> len(m) == old(len(m))
+//@   ensures others: forall m Ref :: old(allocated(m)) ==> $catAddOK[m] == old($catAddOK[m])
+//@   ensures allocmono: forall p Ref :: old(allocated(p)) ==> allocated(p)
+//@ func (e *Variable) MakeCatalog(cat) ()
+//@   serves C12
+//@   requires e != nil && cat != nil
+//@   opt alloc=1
+//@   modifies @catfx, Catalog.Data, map[string]Meta
+//@   ensures[C12] filed: catHas(cat, e.AstID)
+//@   ensures[C12] record: !old(catHas(cat, e.AstID)) ==> typeof(cat.Data[e.AstID]) == typeid(*VariableMeta) && as(cat.Data[e.AstID], *VariableMeta).AstID == e.AstID && as(cat.Data[e.AstID], *VariableMeta).GrlText == e.GrlText && (e.Variable != nil ==> as(cat.Data[e.AstID], *VariableMeta).VariableID == e.Variable.AstID) && (e.Variable == nil ==> as(cat.Data[e.AstID], *VariableMeta).VariableID == "") && (e.ArrayMapSelector != nil ==> as(cat.Data[e.AstID], *VariableMeta).ArrayMapSelectorID == e.ArrayMapSelector.AstID) && (e.ArrayMapSelector == nil ==> as(cat.Data[e.AstID], *VariableMeta).ArrayMapSelectorID == "") && as(cat.Data[e.AstID], *VariableMeta).Name == e.Name
+//@   ensures[C12] children: !old(catHas(cat, e.AstID)) ==> (e.Variable != nil ==> catHas(cat, e.Variable.AstID)) && (e.ArrayMapSelector != nil ==> catHas(cat, e.ArrayMapSelector.AstID))
+//@   ensures[C12] kept: forall k string :: old(catHas(cat, k)) ==> catHas(cat, k) && cat.Data[k] == old(cat.Data[k])
+//@   ensures[C12] samemap: (old(cat.Data) != nil ==> cat.Data == old(cat.Data)) && (old(cat.Data) == nil && cat.Data != nil ==> fresh(cat.Data))
+//@   ensures[C12] wellfiled: forall k string {cat.Data[k]} :: catNew(cat, k) ==> isMeta(cat.Data[k]) && fresh(cat.Data[k]) && metaAstID(cat.Data[k]) == k
+//@   ensures[C12] othercats: forall c *Catalog :: c != cat ==> c.Data == old(c.Data)
+//@   ensures[C12] othermaps: forall m map[string]Meta, k string :: old(allocated(m)) && m != old(cat.Data) ==> has(m, k) == old(has(m, k)) && m[k] == old(m[k])
+//@   ensures othermapslen: forall m map[string]Meta :: old(allocated(m)) && m != old(cat.Data) ==> len(m) == old(len(m))
+//@   ensures others: forall m Ref :: old(allocated(m)) ==> $catAddOK[m] == old($catAddOK[m])
+//@   ensures allocmono: forall p Ref :: old(allocated(p)) ==> allocated(p)
+//@ func (e *WhenScope) MakeCatalog(cat) ()
+//@   serves C12
+//@   requires e != nil && cat != nil
+//@   opt alloc=1
+//@   modifies @catfx, Catalog.Data, map[string]Meta
+//@   ensures[C12] filed: catHas(cat, e.AstID)
+//@   ensures[C12] record: !old(catHas(cat, e.AstID)) ==> typeof(cat.Data[e.AstID]) == typeid(*WhenScopeMeta) && as(cat.Data[e.AstID], *WhenScopeMeta).AstID == e.AstID && as(cat.Data[e.AstID], *WhenScopeMeta).GrlText == e.GrlText && (e.Expression != nil ==> as(cat.Data[e.AstID], *WhenScopeMeta).ExpressionID == e.Expression.AstID) && (e.Expression == nil ==> as(cat.Data[e.AstID], *WhenScopeMeta).ExpressionID == "")
+//@   ensures[C12] children: !old(catHas(cat, e.AstID)) ==> (e.Expression != nil ==> catHas(cat, e.Expression.AstID))
+//@   ensures[C12] kept: forall k string :: old(catHas(cat, k)) ==> catHas(cat, k) && cat.Data[k] == old(cat.Data[k])
+//@   ensures[C12] samemap: (old(cat.Data) != nil ==> cat.Data == old(cat.Data)) && (old(cat.Data) == nil && cat.Data != nil ==> fresh(cat.Data))
+//@   ensures[C12] wellfiled: forall k string {cat.Data[k]} :: catNew(cat, k) ==> isMeta(cat.Data[k]) && fresh(cat.Data[k]) && metaAstID(cat.Data[k]) == k
+//@   ensures[C12] othercats: forall c *Catalog :: c != cat ==> c.Data == old(c.Data)
+//@   ensures[C12] othermaps: forall m map[string]Meta, k string :: old(allocated(m)) && m != old(cat.Data) ==> has(m, k) == old(has(m, k)) && m[k] == old(m[k])
+//@   ensures othermapslen: forall m map[string]Meta :: old(allocated(m)) && m != old(cat.Data) ==> len(m) == old(len(m))
+//@   ensures others: forall m Ref :: old(allocated(m)) ==> $catAddOK[m] == old($catAddOK[m])
+//@   ensures allocmono: forall p Ref :: old(allocated(p)) ==> allocated(p)
+// ---- end of generated MakeCatalog contracts ----
 
 // =========================================================================================================
 // C09: instances are faithful, isolated copies. $blue = the objects that existed when the clone table was created (the
@@ -2243,13 +2458,22 @@ package ast
 //@   opt alloc=1
 //@   requires e != nil && e.WorkingMemory != nil && varIdsDistinct()
 //@   requires forall k string :: has(e.RuleEntries, k) ==> e.RuleEntries[k] != nil
-//@   modifies $catAddN, $catAddOK, alloc, $allocated, RuleEntryMeta.*, fresh Catalog.*, map[string]string, map[string][]string
-//@   invariant@1 shape: fresh(catalog) && catalog.KnowledgeBaseName == e.Name && catalog.KnowledgeBaseVersion == e.Version && e.WorkingMemory != nil && e.WorkingMemory == old(e.WorkingMemory)
+//@   modifies @catfx, fresh Catalog.*, fresh map[string]Meta, map[string]string, map[string][]string
+//@   invariant@1 shape: fresh(catalog) && catalog.KnowledgeBaseName == e.Name && catalog.KnowledgeBaseVersion == e.Version && e.WorkingMemory != nil && e.WorkingMemory == old(e.WorkingMemory) && e == old(e) && (catalog.Data != nil ==> fresh(catalog.Data))
+// every rule entry visited so far is filed, and everything filed is a non-nil record of one of the 13 kinds under its own id
+// (CHECKED since the thirteenth round: the node-level MakeCatalog functions and AddMeta are checked against their bodies)
+//@   invariant@1[C12] rulesfiled: forall j int {$keys[j]} :: 0 <= j && j < $i ==> has(catalog.Data, e.RuleEntries[$keys[j]].AstID)
+//@   invariant@1[C12] wellformed: forall k string {catalog.Data[k]} :: has(catalog.Data, k) ==> isMeta(catalog.Data[k]) && fresh(catalog.Data[k]) && metaAstID(catalog.Data[k]) == k
+//@   invariant@1 othercats: forall c *Catalog :: old(allocated(c)) ==> c.Data == old(c.Data)
+//@   invariant@1 othermaps: forall m map[string]Meta, k string :: old(allocated(m)) ==> has(m, k) == old(has(m, k)) && m[k] == old(m[k])
+//@   invariant@1 othermapslen: forall m map[string]Meta :: old(allocated(m)) ==> len(m) == old(len(m))
+//@   invariant@1 allocmono: forall p Ref :: old(allocated(p)) ==> allocated(p)
+//@   ensures[C12] rulesfiled: forall k string :: has(e.RuleEntries, k) ==> has(c.Data, e.RuleEntries[k].AstID)
+//@   ensures[C12] wellformed: catWF(c)
 //@   ensures[C12] header: c != nil && c.KnowledgeBaseName == e.Name && c.KnowledgeBaseVersion == e.Version && c.MemoryName == e.WorkingMemory.Name && c.MemoryVersion == e.WorkingMemory.Version
 //@   ensures[C12] snapshotmaps: wmA(e.WorkingMemory, c) && wmB(e.WorkingMemory, c) && wmC(e.WorkingMemory, c)
 //@   ensures[C12] indexmaps: wmD(e.WorkingMemory, c) && wmE(e.WorkingMemory, c)
-// (AddMeta files non-nil records: the node-level MakeCatalog functions are thin contracts, so this is ASSUMED here)
-//@   trusted_ensures forall k string :: has(c.Data, k) ==> c.Data[k] != nil
+//@   ensures nonnilrecords: forall k string :: has(c.Data, k) ==> c.Data[k] != nil
 // a failing writer always surfaces (the catalogue is made first, then written; nothing else can fail)
 //@ func (lib *KnowledgeLibrary) StoreKnowledgeBaseToWriter(writer, name, version) (err)
 //@   serves C12
